@@ -89,7 +89,8 @@ def http_cases(ctx, work):
         dpl, sizes_p, stored = hd.build_plain(work, "deep", True, [2, 1, 1], salt=5)
         targets = [("plain", dpl, sizes_p, (1, 0, 0), 2), ("shard", dsh, sizes_s, (1, 1, 0), 7),
                    ("legacy", dleg, sizes_l, (0, 1, 0), 9)]
-        behs = ["NotFound", "ServerError", "Forbidden", "Drop", "TruncBody", "ShortRange", "LongRange", "IgnoreRange"]
+        behs = ["NotFound", "ServerError", "Forbidden", "Drop", "TruncBody", "ShortRange", "LongRange", "IgnoreRange",
+                "ErrorPageFit"]
         for kind, d, sizes, pos, nreq in targets:
             coords = sd.coords_of(pos, 4, sizes)
             loc = hd.local_read(d, "chunk", coords)
